@@ -122,6 +122,7 @@ VH_NOINSTR int main(int argc, char** argv) {
   vh_parse(argv[3]);
   nactors = vh_script.nfibers;
   fiber_manager_init(k);
+  vh_rt_prepare(); /* run queues named, main fiber registered: the runtime model can follow this log too */
   for (int i = 0; i < ntargets; i++) {
     targets[i] = fiber_create_no_sched(65536, target_main, (void*)(long)i);
     tnodes[i] = targets[i]->mpsc_fifo_node;
